@@ -254,7 +254,14 @@ def main(mod, argv=None):
         for v in r.get("viol") or ():
             viols.append((fam, idx, v))
         if r.get("harness"):
-            harness.append(r["harness"])
+            if r["harness"].startswith("run timeout") and fam in getattr(mod, "TIMEOUT_IS_VIOLATION", ()):
+                # the property itself has a termination clause: a run that never ends is a violation
+                viols.append((fam, idx, {"cls": "liveness", "key": "%s/run-does-not-terminate" % fam,
+                                         "msg": "run %s/%d did not finish within %d s of CPU time: %s"
+                                                % (fam, idx, RUN_CPU_TIMEOUT_S, getattr(mod, "TIMEOUT_NOTE", "")),
+                                         "case": {"_timeout": True, "family": fam, "idx": idx, "tier": tier, "seed": seed}}))
+            else:
+                harness.append(r["harness"])
         if r.get("skipped"):
             skipped[r["skipped"]] = skipped.get(r["skipped"], 0) + 1
         simtime += r.get("simtime") or 0.0
@@ -384,6 +391,19 @@ def _replay(mod, path):
     with open(path) as f:
         body = json.load(f)
     case = body.get("case")
+    if isinstance(case, dict) and case.get("_timeout"):
+        signal.signal(signal.SIGVTALRM, _alarm)
+        signal.setitimer(signal.ITIMER_VIRTUAL, 300)
+        try:
+            mod.run_one(case["family"], derive_rng(case["seed"], mod.PROPERTY, case["family"], case["idx"]), case["idx"], case["tier"])
+            signal.setitimer(signal.ITIMER_VIRTUAL, 0)
+            print("replay: the run finishes on this tree")
+            return 0
+        except RunTimeout:
+            signal.setitimer(signal.ITIMER_VIRTUAL, 0)
+            print("VIOLATION property=%s replay=%s" % (mod.PROPERTY, os.path.abspath(path)))
+            print("  class=liveness key=%s/run-does-not-terminate (300 s of CPU time on replay)" % case["family"])
+            return 1
     try:
         viols = mod.replay(case) or []
     except Exception:
